@@ -1,4 +1,5 @@
 import Ntrip.Proofs.TimeHist
+import Ntrip.Guards.Time
 /-!
 # C06 — MSM timestamps are converted to the true UTC time across week rollovers
 
@@ -115,5 +116,8 @@ example : runTimes (newState 1683979200000) sample =
     [(.ok 1683982800000, some 1683417582000), (.ok 1684011540000, some 1683406800000),
      (.rangeErr, some 1683417596000), (.ok 1684011660000, some 1684011600000),
      (.ok 1684026000000, some 1684022382000)] := by decide
+
+/-- Tie T1: guards and loop headers of the modelled code, regenerated from the source. -/
+theorem tie_guards_time : type_of% Ntrip.Guards.time := Ntrip.Guards.time
 
 end Ntrip.C06
